@@ -1,11 +1,13 @@
 package main
 
 import (
+	"bytes"
 	"fmt"
 	"os"
 	"strings"
 
 	"github.com/cosmos/iavl"
+	dbm "github.com/cosmos/iavl/db"
 )
 
 // an error result; a proof request whose calls all failed (pf(none,..)) counts as an error
@@ -30,6 +32,9 @@ func isWriteOp(op []string) bool {
 // "fault cold <op>": the operation runs on a tree object that was only constructed, not loaded
 // (nothing cached: first/latest version are discovered by the faulted operation itself).
 func (s *Sys) execFault(op []string) string {
+	if op[0] == "import" {
+		return s.execFaultImport(atoi(op[1]))
+	}
 	cold := false
 	if op[0] == "cold" {
 		cold = true
@@ -137,4 +142,110 @@ func (s *Sys) execFault(op []string) string {
 		}
 	}
 	return fmt.Sprintf("fl(ok,n=%d,inj=%d);%s", n, injected, s.Exec(op))
+}
+
+// execFaultImport: "fault import v". Version v of the live tree is exported (fault-free) and the
+// stream is imported into a fresh database below the fault-injecting wrapper, once per explored
+// fault position: every batch write (the background batches of a large import included), the
+// first and last calls and a sample of the others when there are many. Verdict per position: an
+// injected fault must make Add or Commit return an error, and the database left behind must
+// reopen either empty (nothing imported) or with version v complete (hash and contents).
+func (s *Sys) execFaultImport(v int64) string {
+	imm, err := s.tree.GetImmutable(v)
+	if err != nil {
+		return "fl(skip);err"
+	}
+	nodes, err := exportAll(imm)
+	if err != nil {
+		return "fl(skip);err"
+	}
+	wantHash := imm.Hash()
+	wantSize := imm.Size()
+	run := func(failAt map[int]bool, trace bool) (*hooks, *dbm.MemDB, error) {
+		db := dbm.NewMemDB()
+		h := &hooks{failAt: failAt, trace: trace}
+		wdb := &wrapDB{inner: db, h: h}
+		t := iavl.NewMutableTree(wdb, 0, true, iavl.NewNopLogger())
+		h.calls = 0
+		imp, err := t.Import(v)
+		if err != nil {
+			return h, db, err
+		}
+		defer imp.Close()
+		for _, n := range nodes {
+			if err := imp.Add(n); err != nil {
+				return h, db, err
+			}
+		}
+		return h, db, imp.Commit()
+	}
+	ref, _, err := run(nil, true)
+	if err != nil {
+		return "fl(skip);ok"
+	}
+	n := ref.calls
+	pos := map[int]bool{1: true, n: true}
+	for i, k := range ref.seq {
+		if k == "bwrite" || n <= 400 {
+			pos[i+1] = true
+		}
+	}
+	for i := 0; i < 24 && n > 400; i++ {
+		pos[1+(i*7919)%n] = true
+	}
+	injected := 0
+	firstAborted := ""
+	for i := 1; i <= n; i++ {
+		if !pos[i] {
+			continue
+		}
+		h, db, err := run(map[int]bool{i: true}, false)
+		injected += h.failed
+		if h.failed == 0 {
+			continue
+		}
+		verdict := ""
+		if err == nil {
+			verdict = "importfailedok"
+		} else {
+			t2 := iavl.NewMutableTree(db, 0, true, iavl.NewNopLogger())
+			lv, lerr := t2.Load()
+			switch {
+			case lerr != nil:
+				verdict = "reopenerr"
+			case lv == 0 && len(t2.AvailableVersions()) == 0:
+			case lv == v:
+				cnt := int64(0)
+				im2, e2 := t2.GetImmutable(v)
+				if e2 != nil {
+					verdict = "reopenmixture"
+					break
+				}
+				im2.IterateRange(nil, nil, true, func(_, _ []byte) bool { cnt++; return false })
+				if cnt != wantSize || !bytes.Equal(im2.Hash(), wantHash) {
+					verdict = "reopenmixture"
+				}
+			default:
+				verdict = "reopenmixture"
+			}
+			_ = t2.Close()
+		}
+		if verdict != "" {
+			res := fmt.Sprintf("fl(viol,op=import_%d,i=%d/%d,kind=%s,fault=%s);ok", v, i, n, verdict, h.failKind)
+			// an import aborted after a background batch was written leaves nodes without a root and
+			// the database no longer loads (recorded finding): keep exploring, any other symptom is
+			// reported in preference
+			if verdict == "reopenerr" && i > 10000 {
+				if firstAborted == "" {
+					firstAborted = res
+				}
+				continue
+			}
+			return res
+		}
+	}
+	if firstAborted != "" {
+		return firstAborted
+	}
+	return fmt.Sprintf("fl(ok,n=%d,inj=%d);ok", n, injected)
 }
